@@ -581,7 +581,7 @@ func (w *world) probe(h histT, vers []*version) {
 			s = protos.FrostSign(mat, S, msg, []byte("sg"))
 		case "cmp":
 			if variant == "presign" {
-				s = protos.CmpPresign(mat, S, []byte("ps"))
+				s = protos.CmpPresign(mat, reversed(S), []byte("ps")) // the list is handed over in no particular order
 			} else {
 				s = protos.CmpSign(mat, S, msg, []byte("sg"))
 			}
@@ -603,7 +603,7 @@ func (w *world) probe(h histT, vers []*version) {
 			for _, id := range S {
 				bm[id] = protos.CloneConfig(vers[base-1].mat[id])
 			}
-			pr, err := protos.Run(protos.CmpPresign(bm, S, []byte("ps")), protos.RunOpts{Seed: w.seed + "/presign/" + w.hist, Sched: sim.NewRng(uint64(len(w.hist)) * 29)})
+			pr, err := protos.Run(protos.CmpPresign(bm, reversed(S), []byte("ps")), protos.RunOpts{Seed: w.seed + "/presign/" + w.hist, Sched: sim.NewRng(uint64(len(w.hist)) * 29)})
 			w.stats["sessions"]++
 			if err != nil || !pr.AllDone() {
 				w.violate("C01", "honest-session-fails", fmt.Sprintf("cmp presign with consistent material (version %d) did not complete", base))
@@ -723,6 +723,14 @@ func (w *world) probe(h histT, vers []*version) {
 			w.violate("C01", "honest-session-fails", fmt.Sprintf("%s %s n=%d t=%d signers=%v digest=%d bytes path=%v: an all-honest signing session with consistent material did not complete at every signer:%s", w.scheme, variant, len(w.ids), w.t, S, len(msg), vers[sameV-1].path, desc))
 		}
 	}
+}
+
+func reversed(S []party.ID) []party.ID {
+	out := make([]party.ID, len(S))
+	for i, id := range S {
+		out[len(S)-1-i] = id
+	}
+	return out
 }
 
 func (w *world) reconstruct(h histT, S []party.ID, mat map[party.ID]interface{}, vers []*version, sameV int) {
